@@ -141,6 +141,20 @@ fn plan_c01(thorough: bool) -> Plan {
     }
     cases.extend(pfx_family("values"));
     cases.extend(cache_pressure_family("values", thorough));
+    // a run of empty values between two large ones in one leaf: every commit of ≤4 actions that
+    // inserts before the leaf / rewrites its ends (splits whose split point falls in front of the
+    // kept cells), then one of the empties deleted; every seed key audited
+    {
+        let a_run = if thorough { acts(&[("w", Some(1300)), ("w", Some(70)), ("d", None), ("w", Some(0))]) } else { acts(&[("w", Some(1300)), ("w", Some(70)), ("d", None)]) };
+        let mut cs = enum_commit_histories(1, 6, 4, &a_run, &mk_case("emptyrun", vec!["BEFORE40", "seed:0,3,6"], &cfg, "values", true));
+        for c in cs.iter_mut() {
+            c["audit_seed_keys"] = json!(true);
+            let mut ops = c["ops"].as_array().unwrap().clone();
+            ops.push(json!({"c": [[4, "d"]]}));
+            c["ops"] = Value::Array(ops);
+        }
+        cases.extend(cs);
+    }
     // (d) the same with a reopen inserted at every position (control symbol), reduced alphabet
     let base = enum_commit_histories(2, 4, 2, &a_small, &mk_case("leaf", vec!["seed:0,1,4,5"], &cfg, "values", false));
     cases.extend(with_control_everywhere(&base, &json!({"reopen": {}})));
